@@ -317,6 +317,8 @@ pub struct Simk {
     /// the failing CQE carries F_MORE (as Linux 6.x does once the notification
     /// was allocated). false: a single CQE without F_MORE.
     pub zc_error_notif: bool,
+    /// The notification of a cancelled zero-copy send follows at once (nothing was sent).
+    pub zc_cancel_notif_immediate: bool,
 }
 
 static SIMK: Mutex<Option<Simk>> = Mutex::new(None);
@@ -394,6 +396,7 @@ pub fn reset(plan: SetupPlan) {
             idle_budget: 1,
             enter_returns: Vec::new(),
             zc_error_notif: true,
+            zc_cancel_notif_immediate: false,
         });
     })
 }
@@ -1187,6 +1190,10 @@ impl Simk {
                     -libc::EALREADY
                 } else {
                     self.fail(t, -libc::ECANCELED);
+                    if self.zc_cancel_notif_immediate && self.req(t).awaiting_notif {
+                        self.req_mut(t).awaiting_notif = false;
+                        self.finish(t, 0, CQE_F_NOTIF);
+                    }
                     0
                 }
             }
